@@ -156,8 +156,12 @@ def upd {β : Type} (f : String → β) (k : String) (v : β) : String → β :=
 structure World where
   tls : Nat → Store
   proc : Store
+  /-- Process-wide side effect of the thread-local `detour` / `apply_wrappers`: the classes whose
+  `__new__` has been replaced by `_maybe_detoured_new` (class_detour.py:232-235, recorded in
+  `_original_new`; never undone). The *mapping* consulted by the replaced `__new__` is per thread. -/
+  patched : String → Bool
 
-def World.empty : World := ⟨fun _ => Store.empty, Store.empty⟩
+def World.empty : World := ⟨fun _ => Store.empty, Store.empty, fun _ => false⟩
 
 inductive Storage where
   | threadLocal
@@ -196,6 +200,33 @@ def World.put (w : World) (st : Storage) (t : Nat) (s : Store) : World :=
   | .processWide => { w with proc := s }
   | _ => { w with tls := upd' w.tls t s }
 where upd' (f : Nat → Store) (t : Nat) (s : Store) : Nat → Store := fun t' => if t' = t then s else f t'
+
+/-- Source classes that `enter_scope` maps newly (those the enclosing scopes do not map yet): their
+`__new__` gets patched, for every thread. -/
+def newSources (top maps : Frame) : List String :=
+  (maps.filter (fun p => !(Dict.get? top p.1).isSome)).map (·.1)
+
+def patchOf (m : Mgr) (a : Arg) (s : Store) : List String :=
+  match m.kind with
+  | .stack .detour => newSources (((s.stk m.key).getD []).headD []) a.kw
+  | _ => []
+
+def World.patch (w : World) (cs : List String) : World :=
+  { w with patched := fun c => w.patched c || cs.contains c }
+
+/-- Destination of class `c` under a detour mapping. -/
+def mappingDest (f : Frame) (c : String) : String :=
+  match Dict.get? f c with
+  | some (.atom (.str d)) => d
+  | _ => c
+
+/-- `c()` in thread `t`: only a patched class runs `_maybe_detoured_new`, which looks the class up
+in the calling thread's current mapping (class_detour.py:331-345); everything else is created as is. -/
+def construct (m : Mgr) (c : String) (t : Nat) (w : World) : String :=
+  if w.patched c then mappingDest ((((w.sel m.storage t).stk m.key).getD []).headD []) c else c
+
+/-- Classes the harness creates objects of in its behavioural probe. -/
+def probeClasses : List String := ["A", "B", "C", "D", "N"]
 
 /-- What a manager remembers between enter and exit. -/
 inductive Saved where
@@ -262,8 +293,9 @@ def enter (m : Mgr) (a : Arg) (t : Nat) (w : World) : Except String (World × Sa
       .ok ({ w with proc := { w.proc with val := upd w.proc.val m.key (some a.a) } },
            .dynG (w.proc.val m.key), .processWide)
   | _ =>
-    let r := enterS m a (w.sel m.storage t)
-    .ok (w.put m.storage t r.1, r.2, m.storage)
+    let s := w.sel m.storage t
+    let r := enterS m a s
+    .ok ((w.patch (patchOf m a s)).put m.storage t r.1, r.2, m.storage)
 
 /-- `__exit__` (normal or exceptional: every primitive does this in a `finally`). -/
 def exit (m : Mgr) (sv : Saved) (st : Storage) (t : Nat) (w : World) : World :=
